@@ -18,3 +18,5 @@ EXPLANATION = ("Proved (SMT, all inputs): TimingState.beats_until is the stateme
 UNITS = [BeatsUntil(), Lookup("beat_at"), RetimeEvents()]
 BOUNDED = [EngineVsStatement("beat_at", k) for k in range(EngineVsStatement.PARTS)]
 witness_search = engine_witness(["beat_at"])
+from props.engine_common import engine_xchecks
+THOROUGH_BOUNDED = engine_xchecks(["beats_until"])
